@@ -6,6 +6,7 @@ import (
 	"math/rand"
 	"os"
 	"path/filepath"
+	"runtime"
 	"strconv"
 	"strings"
 	"testing"
@@ -46,11 +47,27 @@ func TestFamily(t *testing.T) {
 		for i := first; i < first+runs; i++ {
 			s := int64(seed)*1000 + int64(i)
 			var c *Cluster
-			synctest.Test(t, func(t *testing.T) {
-				rand.Seed(s)
-				c = fn(t, s, steps)
-				c.Finish()
-			})
+			func() {
+				// safety net: a goroutine the library leaves blocked for ever (e.g. inside a
+				// blocking API call) makes the bubble report a deadlock when it ends; the
+				// trace has already recorded the fact, so the run is still usable.
+				defer func() {
+					if p := recover(); p != nil {
+						fmt.Printf("BUBBLE-END %v\n", p)
+						buf := make([]byte, 1<<20)
+						buf = buf[:runtime.Stack(buf, true)]
+						_ = os.WriteFile(filepath.Join(out, fmt.Sprintf("%s-%d.stacks.txt", f, s)), buf, 0o644)
+						if c != nil {
+							c.Tr.Emit("leak", "", M{"msg": fmt.Sprint(p)})
+						}
+					}
+				}()
+				synctest.Test(t, func(t *testing.T) {
+					rand.Seed(s)
+					c = fn(t, s, steps)
+					c.Finish()
+				})
+			}()
 			p := filepath.Join(out, fmt.Sprintf("%s-%d.ndjson", f, s))
 			if err := c.Tr.WriteFile(p); err != nil {
 				t.Fatal(err)
